@@ -151,6 +151,7 @@ type Exec struct {
 	restarts      int
 	sharedRoots   []value
 	cellNames     map[*value]string
+	witness       map[string]MVal
 }
 
 type obsRec struct {
